@@ -1257,6 +1257,14 @@ where
             TsType::TsOptionalType(TsOptionalType { type_ann, .. }) => {
                 runtime_types.extend(self.infer_runtime_type(type_ann));
             }
+            // `readonly string[]`, `unique symbol`
+            TsType::TsTypeOperator(TsTypeOperator {
+                op: TsTypeOperatorOp::ReadOnly | TsTypeOperatorOp::Unique,
+                type_ann,
+                ..
+            }) => {
+                runtime_types.extend(self.infer_runtime_type(type_ann));
+            }
             _ => {
                 runtime_types.insert(Some(atom!("Object")));
             }
